@@ -103,6 +103,16 @@ def run(rep, tier, seed):
                 if problems:
                     rep.violation("C09/raw-error", f"{'other-platform branches (' + ', '.join(v for _, v, _ in flags) + ' flipped)' if flip else 'this platform'}, debug logging "
                                   f"{'on' if debug else 'off'}, messages of {size} bytes: {problems[0]}; {len(problems)} problem(s)", replay)
+    for entry in ("list_entities_services", "bluetooth_gatt_get_services"):
+        elapsed, out, tmo = endless_parts_probe(entry)
+        replay = {"kind": "endless-parts", "entry": entry}
+        rep.case(("endless-parts", entry), True, sample={"probe": replay, "elapsed_s": elapsed, "outcome": out})
+        rep.bump("probe:endless-parts")
+        if out == "pending" or out == "ok" or elapsed > 1.2 * tmo + 0.01:
+            rep.violation("C09/hang", f"{entry}() against a device that sends a part of the answer every {0.4 * tmo} s and never the final message: the call "
+                          f"{'was still pending after ' + str(elapsed) + ' s' if out == 'pending' else 'ended (' + out + ') after ' + str(elapsed) + ' s'}; its time-out is {tmo} s", replay)
+        elif out != "L.Timeout":
+            rep.violation("C09/raw-error", f"{entry}() with endless parts ended with {out}, expected the time-out error", replay)
     for ack in (True, False):
         elapsed, out = slow_stop_hook_probe(ack)
         replay = {"kind": "slow-stop-hook", "ack": ack}
@@ -340,6 +350,47 @@ def slow_stop_hook_probe(ack):
     return simnet.run(go)
 
 
+def endless_parts_probe(entry):
+    """A multi-message request (list_entities_services: 60 s; bluetooth_gatt_get_services: 30 s) against a device that keeps sending
+    parts of the answer - the same part again and again, every 40 % of the time-out - and never the final message: the call ends
+    with a time-out error exactly at its time-out, measured from the request. Returns (seconds until it ended, outcome)."""
+    async def go(loop):
+        from aioesphomeapi import api_pb2 as pb
+        net = simnet.Net(loop)
+        with net.patched():
+            cli, tr = await simnet.connected_client(loop, net, keepalive=3600.0)
+            if entry == "list_entities_services":
+                coro, part, tmo = cli.list_entities_services(), pb.ListEntitiesSwitchResponse(key=5, name="s", object_id="s"), 60.0
+            else:
+                coro, part, tmo = cli.bluetooth_gatt_get_services(7), pb.BluetoothGATTGetServicesResponse(address=7), 30.0
+            t0 = loop.time()
+            task = asyncio.ensure_future(coro)
+            await simnet.drain(loop)
+            for _ in range(12):
+                if task.done():
+                    break
+                await simnet.advance(loop, by=0.4 * tmo)
+                if not task.done() and not tr.closing:
+                    tr.feed(simnet.plain_msg(part))
+                    await simnet.drain(loop)
+            elapsed = loop.time() - t0
+            if not task.done():
+                task.cancel()
+                out = "pending"
+            elif task.cancelled():
+                out = "C"
+            else:
+                out = "ok" if task.exception() is None else conntrace.exc_name(task.exception())
+            await simnet.drain(loop)
+            try:
+                await cli.disconnect(force=True)
+            except Exception:  # noqa: BLE001
+                pass
+            await simnet.drain(loop)
+        return round(elapsed, 3), out, tmo
+    return simnet.run(go)
+
+
 def concurrent_resolve_probe(how):
     """Two connections to the same address whose lookups are both outstanding; the first one is cancelled by its caller / times
     out / is force-closed.  The second is not the first one's business: it keeps waiting for its own lookup and, once that
@@ -566,6 +617,11 @@ def replay(path):
         st = _c06.mk_story(d["major"], d["name"], 1, 1, 1, "HC", 1, "pw")
         print(_c06.outcome_of(_c06.run_plain(st)), _c06.oracle(st["case"]))
         return 0
+    if d.get("kind") == "endless-parts":
+        common.setup_impl_path()
+        r = endless_parts_probe(d["entry"])
+        print(r)
+        return 1 if (r[1] in ("pending", "ok") or r[0] > 1.2 * r[2] + 0.01) else 0
     if d.get("kind") == "slow-stop-hook":
         common.setup_impl_path()
         r = slow_stop_hook_probe(d["ack"])
